@@ -121,12 +121,30 @@ def run(ctx):
                             "replay": {"correspondence": "Poseidon circuit AIR control constraints / interactions on a window", "case": cases[k][:6000],
                                        "first_diff_index": pos - 1, "impl": a[which][:1200], "model": b[which][:1200]},
                             "no_input": True})
-        pos_cov = {"windows": rep["windows"], "tamper_evaluations": rep["tamper_evaluations"], "constraint_counts": rep["constraint_counts"], "accepted_invalid_or_panic_by_class": rep.get("violation_counts", {}),
+        # coordinated selector forgeries (harness/src/c11p_chain.rs forge_selector / selector_sweep): per (layout mode, cell,
+        # row kind) verdict counts; every selector-like prover cell of every Merkle layout must have been forged on a
+        # chain-start row and on a continuation row, otherwise the oracle is vacuous for that cell
+        forge = {k[len("forge."):]: v for k, v in rep["hist"].items() if k.startswith("forge.")}
+        expected = [(m, "mmcs_bit") for m in ("arity2", "arity2-compact", "arity4")] + \
+                   [("arity4", c) for c in ("mmcs_bit2", "mmcs_bit_x_bit2", "mmcs_bit+mmcs_bit2")]
+        missing = [f"{m}.{c}.{pos}" for (m, c) in expected for pos in ("first", "cont")
+                   if not any(k.startswith(f"{m}.{c}.{pos}.") for k in forge)]
+        if missing:
+            violations.append({"class": "coverage-hole:poseidon-selector-forgery",
+                "what": "no coordinated forgery was evaluated for selector cell(s) " + ", ".join(missing) + " (oracle vacuous there)",
+                "replay": {"missing": missing}, "no_input": True})
+        pos_cov = {"coordinated_selector_forgeries": forge,
+                   "windows": rep["windows"], "tamper_evaluations": rep["tamper_evaluations"], "constraint_counts": rep["constraint_counts"], "accepted_invalid_or_panic_by_class": rep.get("violation_counts", {}),
                    "window_disagreements": pd}
     cov = {"evaluations": evals, "distinct_nontrivial": distinct,
            "rule": "windows over D in {1,2,4,5(quintic),8}, lanes 1..3, K_max 2..6: fully random (dense/sparse selectors) for polynomial "
                    "identity, structured valid/invalid rows judged with p3-field extension arithmetic; scheduled honest traces built by the "
                    "real AluAir (packed Horner arities 1..K_max) with single-cell tampering judged by an independent relation decoder; "
+                   "Poseidon tables: honest chains with single-cell tampering AND coordinated selector forgeries (for every selector-like prover cell - "
+                   "arity-2 mmcs_bit; arity-4 mmcs_bit, mmcs_bit2, the product helper, both bits - and non-boolean values {2,3,-1,1/2,-2,random}: the "
+                   "helper, the digest placement chunks, the permutation block, the accumulator and the following rows are solved so that every "
+                   "constraint except the cell's own range check / tie holds; random rows of random chains plus a systematic sweep over every honest "
+                   "position, chain-start and continuation rows); "
                    "distinct = distinct window texts",
            "samples": samples, "input_distribution": hist,
            "traces_validated_against_impl": blocks, "disagreements_checked": disagreements, "poseidon_control": pos_cov}
@@ -180,6 +198,11 @@ CHECK = {
                  "P3R.C11P.accChain2_iff", "P3R.C11P.accChain2_last", "P3R.C11P.binVal_split", "P3R.C11P.binVal_cast",
                  "P3R.C11P.accChain4_iff", "P3R.C11P.sumsOf4_getLast", "P3R.C11P.quadVal_cast",
                  "P3R.C11P.spongeChain_iff", "P3R.C11P.merklePlace_iff", "P3R.C11P.arity4Hot_onehot", "P3R.C11P.arity4Place_iff",
+                 # arity-4 selector cells: one-hot position <=> BOTH direction cells boolean and helper = product; every accepted window has it;
+                 # necessity of the check on the high cell (weights (1-t,0,t,0) pass placement and accumulator): the coordinated forgery of the harness
+                 "P3R.C11P.arity4Hot_bits", "P3R.C11P.arity4Hot_onehot_iff", "P3R.C11P.arity4_window_selectors", "P3R.C11P.arity4Hot_bit2_free",
+                 "P3R.C11P.arity4Hot_bit2_free_not_onehot", "P3R.C11P.arity4_forged_place", "P3R.C11P.accCons4_forged",
+                 "P3R.Witness.C11P.arity4_bit2_check_needed", "P3R.Witness.C11P.arity4_bit2_forgery_rejected", "P3R.Witness.C11P.arity4_forged_not_onehot",
                  "P3R.C11P.generic_window_iff", "P3R.C11P.zero_prep_accepts", "P3R.C11P.generic_chain_start_free", "P3R.C11P.compact_start_iff",
                  "P3R.Witness.C11P.acc_start_free", "P3R.Witness.C11P.acc_start_honest", "P3R.Witness.C11P.exposed_index_is_bits_false",
                  "P3R.Witness.C11P.new_start_limb_free", "P3R.Witness.C11P.new_start_limb_free_bus", "P3R.Witness.C11P.compact_start_rejects"],
